@@ -1,5 +1,7 @@
 import Rare.Base.Proto
 import Rare.Model.C01
+import Rare.Model.AggLoopTrace
+import Rare.Drv.C01
 namespace Rare.Drv.C05
 open Rare Rare.C01 Rare.Proto Rare.Pipeline
 
@@ -10,8 +12,29 @@ def insertSorted (k : Bytes) : List (Bytes × Nat) → List (Bytes × Nat)
     else if k < k' then (k, 1) :: (k', n) :: r
     else (k', n) :: insertSorted k r
 
+/-- Trace inclusion of one real run of batcher + extractor + RunAggregationLoop: the pipeline half of the
+    log against the pipeline transition system (consumer = main of the loop), the loop's half against the
+    aggregation-loop transition system, and the two halves against each other (what main sampled is, in
+    order, what the pipeline model's consumer received). -/
+def aggTrace (cfg : PipelineTrace.Cfg) (evs : List TraceOrder.Ev) : String :=
+  let pipe := Drv.C01.pipeTrace cfg evs
+  if !pipe.answer.startsWith "ok " then "rejected pipeline: " ++ pipe.answer else
+  let aevs := evs.filter fun e => AggLoopTrace.aggKinds.contains e.kind
+  let stream := AggLoopTrace.streamOf aevs
+  let tr := aevs.toArray
+  match TraceOrder.verdict AggLoopTrace.machine AggLoopTrace.lin (AggLoopTrace.initSt stream) tr with
+  | .accepted as _ =>
+    let s := as.lts
+    if s.sampled ≠ pipe.consumed.map (·.text) then "rejected cross: the keys sampled are not the matches the pipeline delivered, in order" else
+    let last := match s.renders.getLast? with | some r => r.length | none => 0
+    s!"{pipe.answer} renders={s.renders.length} last={last}"
+  | .rejected deepest stuck exhausted =>
+    let st := " ".intercalate (stuck.map fun p => s!"{p}:{Drv.C01.showEv (TraceOrder.evAt tr p)}")
+    s!"rejected aggloop after={deepest}/{tr.size} exhaustive={exhausted} frontier={st}"
+
 /-- `agg <inputs hexlist> …`: the final histogram every schedule must end with (keys sorted bytewise),
-    the matched total, and the two flags the harness reports (`1` = the property held in that run). -/
+    the matched total, and the two flags the harness reports (`1` = the property held in that run).
+    `atrace <blob>`: trace inclusion of a real run's event log (blob as in C01's `ptrace`). -/
 def handle : List String → String
   | "agg" :: ins :: _ =>
     match decHexList ins with
@@ -21,6 +44,16 @@ def handle : List String → String
       let body := if counts.isEmpty then "." else ",".intercalate (counts.map fun p => s!"{Hex.enc p.1}={p.2}")
       s!"ok final={body} matched={ms.length} renders_ok=1 excl_ok=1"
     | none => "bad-args"
+  | "atrace" :: blob :: _ =>
+    match blob.splitOn "/" with
+    | [cfg, ins, _, trace] =>
+      match Drv.C01.parseInputs ins with
+      | none => "bad-args inputs"
+      | some inputs =>
+        match Drv.C01.parseCfg cfg inputs true, Drv.C01.parseTrace trace with
+        | some cfg, some evs => aggTrace cfg evs
+        | _, _ => "bad-args cfg/trace"
+    | _ => "bad-args blob"
   | _ => "bad-op"
 
 end Rare.Drv.C05
